@@ -25,7 +25,10 @@ protected:
   std::deque<std::string> tokens_;
   std::deque<std::string> splits_;
 
-  /** @brief The delimiters skipped before the first token. */
+  /**
+   * @brief The delimiters skipped before the first token (default mode only, empty in solid mode).
+   * Only used by unparseRemainingTokens().
+   */
   std::string lead_;
 
   /** @brief the current position in the token list. */
@@ -99,6 +102,17 @@ public:
   void removeEmptyTokens();
 
   /**
+   * @brief Re-join the remaining tokens with the delimiters that separated them in the original string.
+   *
+   * The result is the part of the original string that has not been consumed yet:
+   * - when no token has been consumed (no call to nextToken()), the whole original string is
+   *   returned, including the delimiters that precede the first token and the ones that follow
+   *   the last token;
+   * - after k calls to nextToken(), the result starts at token k+1 and runs to the end of the
+   *   original string (trailing delimiters included);
+   * - when every token has been consumed, the result is empty.
+   * This only holds as long as removeEmptyTokens() has not removed a token.
+   *
    * @return The remaining tokens as if the original corresponding string was not parsed.
    */
   std::string unparseRemainingTokens() const;
